@@ -237,6 +237,19 @@ func runC07(c *Ctx) {
 				}
 			}
 			// case B: write-back of next, needs an active lease
+			if stripRoot(k) != ".next" {
+				// the value came back from a helper as one of several results: every origin that can
+				// reach the write on a consistent path
+				if os := f.Origins(enc, ept); len(os) > 0 {
+					all := true
+					for _, o := range os {
+						all = all && stripRoot(f.KeyAt(o.E, o.At)) == ".next"
+					}
+					if all {
+						k = "seq.next"
+					}
+				}
+			}
 			if stripRoot(k) == ".next" {
 				edges := f.RelEdgesAt(func(rel Rel) bool {
 					l, rr := stripRoot(rel.L), stripRoot(rel.R)
